@@ -510,7 +510,8 @@ namespace
     value pwd___(runtime& runtime)
     {
         auto path = std::filesystem::path(runtime.context_active().current_frame().diag_info_from_position().path.physical);
-        auto str = std::filesystem::absolute(path).string();
+        std::error_code ec;
+        auto str = std::filesystem::absolute(path.empty() ? std::filesystem::path(".") : path, ec).string();
         std::replace(str.begin(), str.end(), '\\', '/');
         return str;
     }
@@ -518,7 +519,10 @@ namespace
     {
         auto pathinfo = runtime.context_active().current_frame().diag_info_from_position().path;
         auto path = std::filesystem::path(pathinfo.physical);
-        auto str = std::filesystem::absolute(path.parent_path()).string();
+        // a file name without directory (or no file at all) lives in the working directory; absolute("") throws
+        auto parent = path.parent_path().empty() ? std::filesystem::path(".") : path.parent_path();
+        std::error_code ec;
+        auto str = std::filesystem::absolute(parent, ec).string();
         std::replace(str.begin(), str.end(), '\\', '/');
         return str;
     }
